@@ -311,19 +311,19 @@ Sys gen_overshoot(Rng& r, int nlo, int nhi) {
 //   Q_2, Q_3, ... groups of 2..6 MUTUALLY COUPLED coefficients, Q_j pulled up by Q_{j-1}: released TOGETHER in iteration j
 //   (multi-row cholmod_rowadd, nH2 = |Q_j|).
 // A system is a function of its descriptor (generator seed + sizes): the replay carries the descriptor, not 2.25 million entries.
-struct BigDesc { uint64_t gseed; int n, pstyle, scale, dense10, ridge, nst; int k[8]; };
+struct BigDesc { uint64_t gseed; int n, pstyle, scale, dense10, ridge, neg, nst; int k[8]; };
 
 std::string big_desc_str(const BigDesc& d) {
-  std::ostringstream o; o << d.gseed << " " << d.n << " " << d.pstyle << " " << d.scale << " " << d.dense10 << " " << d.ridge << " " << d.nst;
+  std::ostringstream o; o << d.gseed << " " << d.n << " " << d.pstyle << " " << d.scale << " " << d.dense10 << " " << d.ridge << " " << d.neg << " " << d.nst;
   for (int j = 0; j < d.nst; j++) o << " " << d.k[j];
   return o.str();
 }
 
 bool big_desc_parse(std::istream& in, BigDesc& d) {
-  if (!(in >> d.gseed >> d.n >> d.pstyle >> d.scale >> d.dense10 >> d.ridge >> d.nst) || d.ridge < 0 || d.nst < 0 || d.nst > 8 || d.n < 8 || d.n > 4000) return false;
+  if (!(in >> d.gseed >> d.n >> d.pstyle >> d.scale >> d.dense10 >> d.ridge >> d.neg >> d.nst) || d.ridge < 0 || d.neg < 0 || d.neg > d.n / 8 || d.nst < 0 || d.nst > 8 || d.n < 8 || d.n > 4000) return false;
   int used = 0;
   for (int j = 0; j < d.nst; j++) { if (!(in >> d.k[j]) || d.k[j] < 1) return false; used += d.k[j]; }
-  return used < d.n / 2;
+  return used < d.n / 2 && (d.nst > 0 || d.neg > 0);
 }
 
 BigDesc draw_big(Rng& r, int slot) {
@@ -331,6 +331,15 @@ BigDesc draw_big(Rng& r, int slot) {
   d.pstyle = r.range(0, 2); d.scale = r.coin(1, 4) ? 1 : 0; d.dense10 = r.coin(1, 4) ? 8 : 10;
   { int rg[4] = {0, 2, 8, 32}; d.ridge = rg[r.range(0, 3)]; }   // extra diagonal weight of the staged coefficients: the weaker their mutual
                                                                 // coupling relative to the diagonal, the smaller the effect of a wrong factor row
+  d.neg = 0;
+  if (slot % 5 == 2) {
+    // overshoot (the large counterpart of kind 10): every coefficient is released at once - the first factor is already
+    // full-size - and a planted group of 2..4 slightly negative components is constrained in ONE call: multi-row
+    // cholmod_rowdel (nH1 >= 2; needs n > ~216 * rows as well); optionally one group released afterwards
+    d.n = r.range(900, 1300); d.neg = r.range(2, std::min(4, d.n / 300)); d.ridge = 0;
+    d.nst = r.coin() ? 0 : 1; d.k[0] = r.range(1, 2);
+    return d;
+  }
   if (slot % 5 == 4) {
     // nnls_normal_block_updown switches whole blocks only while the number of infeasible coefficients keeps falling and stays above
     // its murty_steps counter (5, +1 per block step): stages of 9..10 and then 8..9 coefficients; the first one is the update
@@ -340,7 +349,7 @@ BigDesc draw_big(Rng& r, int slot) {
   }
   // sizes: one system near each end of the range and the rest in between; the number of rows that can be added in one
   // row-by-row call grows with n (about n / 216)
-  int lo[4] = {620, 1380, 900, 1100}, hi[4] = {800, 1600, 1250, 1500};
+  int lo[4] = {620, 1380, 0, 1100}, hi[4] = {800, 1600, 0, 1500};
   d.n = r.range(lo[slot % 5], hi[slot % 5]);
   int kcap = std::max(2, std::min(6, d.n / 240));
   // mostly ONE group after the single coefficient: a factor damaged by the multi-row add is then the one the returned vector is
@@ -353,7 +362,7 @@ BigDesc draw_big(Rng& r, int slot) {
   return d;
 }
 
-// roles[i]: 0 core, j >= 1 member of stage j
+// roles[i]: 0 core, -1 planted negative group, j >= 1 member of stage j
 Sys gen_big(const BigDesc& d, std::vector<int>* roles = nullptr) {
   Rng r(d.gseed * 2 + 1);
   int n = d.n, used = 0; for (int j = 0; j < d.nst; j++) used += d.k[j];
@@ -364,12 +373,18 @@ Sys gen_big(const BigDesc& d, std::vector<int>* roles = nullptr) {
   if (d.pstyle == 0) shuffle(r, perm); else if (d.pstyle == 1) for (int i = 0; i < n; i++) perm[i] = n - 1 - i;
   std::vector<double> A((size_t)n * n, 0.0), b(n, 0.0);
   auto add = [&](int u, int v, double w) { int a = perm[u], c = perm[v]; A[(size_t)a * n + c] += w; A[(size_t)c * n + a] += w; };
-  for (int u = 0; u < k[0]; u++) for (int v = u + 1; v < k[0]; v++) if ((int)r.below(10) < d.dense10) add(u, v, -(double)r.range(1, 3));
+  // couplings inside the core are negative, except those of a planted negative group N (the last d.neg core members), which
+  // are positive towards the rest of the core and of either sign inside N
+  int nlo = k[0] - d.neg;
+  for (int u = 0; u < k[0]; u++) for (int v = u + 1; v < k[0]; v++) if ((int)r.below(10) < d.dense10) {
+    double w = (double)r.range(1, 3);
+    add(u, v, (v >= nlo && u < nlo) ? w : ((u >= nlo) ? (r.coin() ? 1.0 : -1.0) : -w));
+  }
   for (int j = 1; j <= d.nst; j++) {
     for (int u = start[j]; u < start[j + 1]; u++) {
       int deg = r.range(1, 3);
-      for (int t = 0; t < deg; t++) {                       // pulled up by the previous stage
-        int v = start[j - 1] + (int)r.below(k[j - 1]);
+      for (int t = 0; t < deg; t++) {                       // pulled up by the previous stage (not by a planted negative member)
+        int v = start[j - 1] + (int)r.below(j == 1 ? std::max(1, nlo) : k[j - 1]);
         if (A[(size_t)perm[u] * n + perm[v]] != 0) continue;
         add(u, v, -(double)r.range(1, 3));
       }
@@ -380,11 +395,18 @@ Sys gen_big(const BigDesc& d, std::vector<int>* roles = nullptr) {
   for (int i = 0; i < n; i++) { double s = 1.0; for (int jj = 0; jj < n; jj++) if (jj != i) s += std::fabs(A[(size_t)i * n + jj]); A[(size_t)i * n + i] = s; }
   for (int u = k[0]; u < n; u++) A[(size_t)perm[u] * n + perm[u]] += (double)d.ridge;
   for (int u = 0; u < n; u++) b[perm[u]] = (u < k[0]) ? (double)r.range(1, 16) : (r.coin() ? 0.0 : -(double)r.range(1, 4) / 16.0);
+  if (d.neg > 0) {
+    // planted unconstrained solution on the core: x0 = c0 (+0..2) > 0 except on the last d.neg core members (the group N,
+    // coupled POSITIVELY to the rest of the core: see below), where x0 = -(1..7)/8; b = A x0 on the core (exact, and > 0)
+    std::vector<double> x0(n, 0.0); double c0 = (double)(r.range(4, 8) * (1 + 3 * d.neg)); bool vary = r.coin(1, 3);
+    for (int u = 0; u < k[0]; u++) x0[perm[u]] = (u < k[0] - d.neg) ? c0 + (vary ? (double)r.range(0, 2) : 0.0) : -(double)r.range(1, 7) / 8.0;
+    for (int u = 0; u < k[0]; u++) { int i = perm[u]; double sacc = 0; for (int jj = 0; jj < n; jj++) sacc += A[(size_t)i * n + jj] * x0[jj]; b[i] = sacc; }
+  }
   if (d.scale) {   // D A D, D b with D = diag(2^e), |e| <= 3 (exact)
     std::vector<int> e(n); for (auto& x : e) x = r.range(-3, 3);
     for (int i = 0; i < n; i++) { b[i] = std::ldexp(b[i], e[i]); for (int jj = 0; jj < n; jj++) A[(size_t)i * n + jj] = std::ldexp(A[(size_t)i * n + jj], e[i] + e[jj]); }
   }
-  if (roles) { roles->assign(n, 0); for (int j = 1; j <= d.nst; j++) for (int u = start[j]; u < start[j + 1]; u++) (*roles)[perm[u]] = j; }
+  if (roles) { roles->assign(n, 0); for (int u = nlo; u < k[0]; u++) (*roles)[perm[u]] = -1; for (int j = 1; j <= d.nst; j++) for (int u = start[j]; u < start[j + 1]; u++) (*roles)[perm[u]] = j; }
   return from_dense(11, n, A, b);
 }
 
